@@ -71,70 +71,110 @@ def check_rejection_loop(ctx, res, config="all"):
     res.clause("R10: gen_biguint_below is a first-candidate rejection loop: candidates of exactly bound.bits() bits, accepted by a strict < and returned unchanged")
 
 
+def _paths(b, start, stops, limit=400):
+    """acyclic paths from block `start` until a block in `stops` (inclusive); each path = (blocks, decisions) with
+    decisions = [(switch_block, chosen_target)]"""
+    out = []
+    stack = [(start, [start], [])]
+    while stack and len(out) < limit:
+        x, blocks, dec = stack.pop()
+        if x in stops:
+            out.append((blocks, dec))
+            continue
+        succ = b.succ(x)
+        t = b.blocks[x]["term"]
+        for s_ in succ:
+            if s_ in blocks:
+                continue
+            d2 = dec + [(x, s_)] if t["k"] == "switch" and len(succ) > 1 else dec
+            stack.append((s_, blocks + [s_], d2))
+    return out
+
+
 def check_gen_bigint(ctx, res, config="all"):
+    """one iteration of gen_bigint as an outcome table: paths from the magnitude draw to either the next draw (re-draw) or the
+    from_biguint call, labelled by the outcome of is_zero(magnitude) and of the fresh random bools consulted on the way.
+    Zero magnitude: one fresh bool maps {true,false} one-to-one onto {re-draw, NoSign}; non-zero: one fresh bool maps one-to-one
+    onto {Plus, Minus}.  Any control-flow shape with this table is accepted."""
     facts = ctx.facts(config)
     b = _one(facts, "bigrand::RandBigInt>::gen_bigint")
     if b is None:
         res.fail(Finding("R10-anchor-lost", "gen_bigint", "not found", file="src/bigrand.rs", line=0))
         return
+    b = core.inline_private(facts, b, keep=("gen_biguint", "from_biguint", "gen", "is_zero"))
     tl, atoms = tests_of(b)
+    by_bb = {t.bb: t for t in tl}
     errs = []
-    gens = [(i, t) for i, t in b.calls() if callee_name(t) == "gen_biguint" and i in b.live_blocks()]
-    coin = [(i, t) for i, t in b.calls() if callee_name(t) == "gen" and i in b.live_blocks()]
-    fb = [(i, t) for i, t in b.calls() if callee_name(t) == "from_biguint" and i in b.live_blocks()]
+    live = b.live_blocks()
+    gens = [(i, t) for i, t in b.calls() if callee_name(t) == "gen_biguint" and i in live]
+    coin = {i: t for i, t in b.calls() if callee_name(t) == "gen" and i in live}
+    fb = [(i, t) for i, t in b.calls() if callee_name(t) == "from_biguint" and i in live]
     if len(gens) != 1 or len(fb) != 1:
         errs.append("expected one gen_biguint and one from_biguint call")
-    if len(coin) < 2:
-        errs.append("expected two independent random bools (zero re-draw, sign choice), found %d" % len(coin))
-    if not errs:
+    else:
         gi, gt = gens[0]
+        fi = fb[0][0]
         ba = atoms.of_operand(gt["args"][1])
         if params_of(ba) != {2} or calls_of(ba):
             errs.append("gen_biguint is not called with the requested bit_size")
-        # zero test on the magnitude decides which coin is used
-        zt = [t for t in tl if t.cond is not None and t.cond.kind == "call" and t.cond.name == "is_zero" and "gen_biguint" in calls_of(t.cond.args[0])]
-        if len(zt) != 1:
-            errs.append("no is_zero test on the drawn magnitude")
-        else:
-            z = zt[0]
-            # zero branch: a coin whose one outcome loops back to the draw, other yields NoSign
-            zc = [(i, t) for i, t in coin if b.edge_dominates((z.bb, z.t), i)]
-            nc = [(i, t) for i, t in coin if b.edge_dominates((z.bb, z.f), i)]
-            if len(zc) != 1 or len(nc) != 1:
-                errs.append("zero and non-zero magnitudes must each consult exactly one fresh random bool")
-            else:
-                ci, ct = zc[0]
-                sw = core.bool_switch_after_call(b, ci)
-                if not sw:
-                    errs.append("zero re-draw coin is not branched on")
-                else:
-                    _, f_t, t_t = sw
-                    loops = [x for x in (f_t, t_t) if gi in b.reachable(x) and fb[0][0] not in b.reachable(x, without_blocks=[gi])]
-                    stays = [x for x in (f_t, t_t) if fb[0][0] in b.reachable(x, without_blocks=[gi])]
-                    if len(loops) != 1 or len(stays) != 1:
-                        errs.append("for a zero magnitude exactly one coin outcome must re-draw and the other must return zero")
-                ni, nt = nc[0]
-                sw = core.bool_switch_after_call(b, ni)
-                if not sw:
-                    errs.append("sign coin is not branched on")
-                else:
-                    _, f_t, t_t = sw
-                    signs = set()
-                    for x in (f_t, t_t):
-                        for s in b.blocks[x]["stmts"]:
-                            if s["k"] == "assign" and s["rv"]["k"] == "aggregate" and s["rv"].get("adt") == "bigint::Sign":
-                                signs.add(s["rv"]["variant"])
-                    if signs != {"Plus", "Minus"}:
-                        errs.append("the sign coin must choose between Plus and Minus (found %s)" % sorted(signs))
-        # magnitude handed to from_biguint is the drawn one
         fa = core.Flow(b).roots_of_operand(fb[0][1]["args"][1])
         if not all(r[0] == "call" and r[1] == gi for r in fa):
             errs.append("from_biguint does not receive the drawn magnitude")
+        table = {True: {}, False: {}}
+        undecided = False
+        for blocks, dec in _paths(b, gt["target"], {gi, fi}):
+            z = None
+            coins = {}
+            for (sb, tgt) in dec:
+                t = by_bb.get(sb)
+                if t is None or t.cond is None:
+                    undecided = True
+                    continue
+                c = t.cond
+                val = True if tgt == t.t else (False if tgt == t.f else None)
+                if c.kind == "call" and c.name == "is_zero" and c.args and "gen_biguint" in calls_of(c.args[0]):
+                    z = val
+                elif c.kind == "call" and c.name == "gen" and c.bb in coin:
+                    coins[c.bb] = val
+                elif c.kind in ("const",):
+                    pass
+                else:
+                    undecided = True
+            if blocks[-1] == gi:
+                outcome = "re-draw"
+            else:
+                signs = {s_["rv"]["variant"] for x in blocks for s_ in b.blocks[x]["stmts"] if s_["k"] == "assign" and s_["rv"]["k"] == "aggregate" and s_["rv"].get("adt") == "bigint::Sign"}
+                outcome = next(iter(signs)) if len(signs) == 1 else "sign?%s" % sorted(signs)
+            # every coin consulted must be drawn inside this iteration (its call lies on the path)
+            for cb_ in coins:
+                if cb_ not in blocks and not (b.block_dominates(cb_, blocks[0]) and gi in b.reachable(cb_)):
+                    errs.append("a random bool drawn outside the iteration decides the outcome")
+            if z is None:
+                errs.append("a path from the draw to %s does not test the magnitude for zero" % outcome)
+                continue
+            table[z].setdefault(outcome, []).append(coins)
+        if undecided and not errs:
+            res.note("R10-gen-bigint: a branch of gen_bigint is not an is_zero / random-bool test - outcome table not decided")
+        elif not errs:
+            for z, want in ((True, {"re-draw", "NoSign"}), (False, {"Plus", "Minus"})):
+                got = table[z]
+                what = "zero" if z else "non-zero"
+                if set(got) != want:
+                    errs.append("for a %s magnitude the outcomes are %s, expected %s" % (what, sorted(got), sorted(want)))
+                    continue
+                ids = {cid for lst in got.values() for cs in lst for cid in cs}
+                if len(ids) != 1:
+                    errs.append("for a %s magnitude the outcome must depend on exactly one fresh random bool (found %d)" % (what, len(ids)))
+                    continue
+                cid = next(iter(ids))
+                vals = {o: {cs.get(cid) for cs in lst} for o, lst in got.items()}
+                if any(len(v) != 1 or None in v for v in vals.values()) or len({next(iter(v)) for v in vals.values()}) != 2:
+                    errs.append("for a %s magnitude the random bool does not map one-to-one onto %s" % (what, sorted(want)))
     if errs:
-        res.fail(Finding("R10-gen-bigint", b.path, "; ".join(errs), b))
+        res.fail(Finding("R10-gen-bigint", b.path, "; ".join(sorted(set(errs))[:4]), b))
     else:
-        res.ok("R10-gen-bigint", b.path, {"zero": "re-draw on one outcome of a fresh bool", "sign": "fresh bool chooses Plus/Minus"})
-    res.clause("R10: gen_bigint draws a magnitude of bit_size bits; zero is kept with probability 1/2 (else re-drawn); the sign of a non-zero magnitude is a fresh fair bool")
+        res.ok("R10-gen-bigint", b.path, {"zero": "one fresh bool: re-draw / NoSign", "non-zero": "one fresh bool: Plus / Minus", "form": "outcome table over the paths of one iteration"})
+    res.clause("R10: gen_bigint draws a magnitude of bit_size bits; zero is kept with probability 1/2 (else re-drawn); the sign of a non-zero magnitude is a fresh fair bool (outcome table of one loop iteration)")
 
 
 def check_delegations(ctx, res, config="all"):
@@ -228,10 +268,29 @@ def check_delegations(ctx, res, config="all"):
                     a0 = at2.of_operand(adds2[0][1]["args"][0])
                     a1 = at2.of_operand(adds2[0][1]["args"][1])
                     ok = params_of(n0) == {1} and "add" in calls_of(n1) and params_of(a0) == {2} and consts_of(a1) == {1} and not params_of(a1)
+                form = "new(low, high + 1)"
+                if not ok and not news:
+                    # the same sampler built directly: base = low, len = (high + 1) - low
+                    subs = [(i, t) for i, t in c.calls() if (callee_fn(t) or {}).get("impl_trait") == "core::ops::Sub" and i in c.live_blocks()]
+                    if len(subs) == 1 and len(adds2) == 1:
+                        s0 = at2.of_operand(subs[0][1]["args"][0])
+                        s1 = at2.of_operand(subs[0][1]["args"][1])
+                        a0 = at2.of_operand(adds2[0][1]["args"][0])
+                        a1 = at2.of_operand(adds2[0][1]["args"][1])
+                        term_ok = params_of(s0) == {2} and "add" in calls_of(s0) and params_of(s1) == {1} and "add" not in calls_of(s1) and params_of(a0) == {2} and consts_of(a1) == {1} and not params_of(a1)
+                        for i, si, s_ in c.stmts():
+                            rv = s_.get("rv")
+                            if term_ok and rv and rv["k"] == "aggregate" and rv.get("adt") == ty:
+                                fm = dict(zip(rv["fields"], rv["ops"]))
+                                ba = at2.of_operand(fm["base"])
+                                la = at2.of_operand(fm["len"])
+                                if params_of(ba) == {1} and not ({"add", "sub"} & calls_of(ba)) and "sub" in calls_of(la):
+                                    ok = True
+                                    form = "base = low, len = (high + 1) - low"
                 if ok:
-                    res.ok("R10-uniform-new", c.path, {"term": "new(low, high + 1)"})
+                    res.ok("R10-uniform-new", c.path, {"term": form})
                 else:
-                    res.fail(Finding("R10-uniform-new", c.path, "new_inclusive must be new(low, high + 1)", c))
+                    res.fail(Finding("R10-uniform-new", c.path, "new_inclusive must be new(low, high + 1) (or build base = low, len = (high + 1) - low directly)", c))
     res.clause("R10: RandomBits forwards self.bits; Uniform*::sample = base + below(len) with base = low, len = high - low (inclusive: high + 1)")
 
 
@@ -366,8 +425,9 @@ def check_fixpoint_invariant(ctx, res, config="all"):
             if ls == {"x", "xn"}:
                 compares.append(i)
     errs = []
+    shape = []  # the driver is written in a form this rule does not model: undecided, not a violation
     if len(compares) < 2:
-        errs.append("expected two loop tests comparing the iterate with the candidate, found %d" % len(compares))
+        shape.append("expected two loop tests comparing the iterate with the candidate, found %d" % len(compares))
     for d in xdefs:
         r = b.reachable(d, without_blocks=list(refresh - {d}))
         stale = [c for c in compares if c in r and c != d]
@@ -386,8 +446,11 @@ def check_fixpoint_invariant(ctx, res, config="all"):
                     if any(r[0] == "param" and r[1] == x for r in rr):
                         ok = True
         if not ok:
-            errs.append("the closure is applied to something other than the current iterate")
-    if errs:
+            shape.append("the closure is applied to something other than the iterate variable (e.g. to the candidate, which is then moved into the iterate)")
+    if shape:
+        res.note("R10-fixpoint-invariant: %s - the candidate/iterate invariant is not decided for this form of the Newton driver" % "; ".join(shape[:2]))
+        res.ok("R10-fixpoint-invariant", b.path, {"undecided": shape[:2]}, nontrivial=False)
+    elif errs:
         res.fail(Finding("R10-fixpoint-invariant", b.path, "; ".join(errs[:2]), b))
     else:
         res.ok("R10-fixpoint-invariant", b.path, {"iterate_updates": len(xdefs), "candidate_refreshes": len(refresh), "loop_tests": len(compares)})
